@@ -111,3 +111,22 @@ M("C09-twin-neq-else-break", {"C09": None},
    "            if previous_iteration_point_labels != current_model_state.point_labels:\n                previous_iteration_point_labels = copy.copy(\n                    current_model_state.point_labels)\n            else:\n                break\n"))
 M("C09-twin-user-args-limit", {"C09": None},
   ("main_loop.py", _LOOP, "        for current_iteration in range(user_args.iteration_limit):"))
+
+# ---------------------------------------------------------------- C12
+M("C12-bias-hardwired", {"C12": "C12.R2"}, ("cluster_maintenance.py", "        bias=use_biased_covariance\n", "        bias=False\n"))
+M("C12-bias-inverted", {"C12": "C12.R2"}, ("cluster_maintenance.py", "        bias=use_biased_covariance\n", "        bias=not use_biased_covariance\n"))
+M("C12-flag-constant-at-call", {"C12": "C12.R2"}, ("cluster_maintenance.py", "            training_data,\n            model.arguments.biased_covariance\n", "            training_data,\n            False\n"))
+M("C12-frontend-drops-flag", {"C12": "C12.R2"}, ("front_end.py", "        min_cluster_size=min_cluster_size,\n        biased_covariance=biased_covariance)\n\n    try:\n        stacked_data", "        min_cluster_size=min_cluster_size,\n        biased_covariance=False)\n\n    try:\n        stacked_data"))
+M("C12-all-rows", {"C12": "C12.R1"}, ("cluster_maintenance.py", "    training_data_this_cluster = training_data[cluster.member_points, :]\n\n    updated_cluster.empirical_covariance", "    training_data_this_cluster = training_data[:, :]\n\n    updated_cluster.empirical_covariance"))
+M("C12-mean-of-all-data", {"C12": "C12.R1"}, ("cluster_maintenance.py", "    updated_cluster.stacked_data_mean = np.mean(\n        training_data_this_cluster, axis=0)", "    updated_cluster.stacked_data_mean = np.mean(\n        training_data, axis=0)"))
+M("C12-no-transpose", {"C12": "C12.R1"}, ("cluster_maintenance.py", "        np.transpose(training_data_this_cluster),\n        bias=use", "        training_data_this_cluster,\n        bias=use"))
+M("C12-drop-last-member", {"C12": "C12.R1"}, ("cluster_maintenance.py", "training_data[cluster.member_points, :]\n\n    updated_cluster.empirical_covariance", "training_data[cluster.member_points[:-1], :]\n\n    updated_cluster.empirical_covariance"))
+M("C12-neighbour-slot", {"C12": "C12.R3"}, ("cluster_maintenance.py", "        updated_model.clusters[cluster_id] = update_cluster_member_data_statistics(\n            updated_model.clusters[cluster_id],", "        updated_model.clusters[cluster_id] = update_cluster_member_data_statistics(\n            updated_model.clusters[cluster_id - 1],"))
+M("C12-skip-last-cluster", {"C12": "C12.R3"}, ("cluster_maintenance.py", "    updated_model = model.shallow_copy()\n    for cluster_id in range(num_clusters):", "    updated_model = model.shallow_copy()\n    for cluster_id in range(num_clusters - 1):"))
+M("C12-task-computed-covariance", {"C12": "C12.R4"}, ("graphical_lasso.py", "    admm_args = [\n        cluster.empirical_covariance,", "    admm_args = [\n        cluster.computed_covariance,"))
+M("C12-task-args-swapped", {"C12": "C12.R4"}, ("graphical_lasso.py", "        density_penalty,\n        window_size,\n        num_data_series\n    ]", "        density_penalty,\n        num_data_series,\n        window_size\n    ]"))
+M("C12-penalty-hardwired", {"C12": "C12.R4"}, ("graphical_lasso.py", "                                                                  model.arguments.sparsity_weight,\n", "                                                                  0.11,\n"))
+M("C12-frontend-window-default", {"C12": "C12.R4"}, ("front_end.py", "    args = arguments.UserArguments(\n        window_size=window_size,", "    args = arguments.UserArguments(\n        window_size=10,"))
+M("C12-twin-rowvar", {"C12": None}, ("cluster_maintenance.py", "        np.transpose(training_data_this_cluster),\n        bias=use", "        training_data_this_cluster, rowvar=False,\n        bias=use"))
+M("C12-twin-dotT", {"C12": None}, ("cluster_maintenance.py", "        np.transpose(training_data_this_cluster),\n        bias=use", "        training_data_this_cluster.T,\n        bias=use"))
+M("C12-twin-inline-rows", {"C12": None}, ("cluster_maintenance.py", "    updated_cluster.stacked_data_mean = np.mean(\n        training_data_this_cluster, axis=0)", "    updated_cluster.stacked_data_mean = np.mean(\n        training_data[cluster.member_points], axis=0)"))
